@@ -286,12 +286,8 @@ def run_c02(ctx):
             if cls(plain[w][i]) in ('ABORT', 'PANIC', 'HANG'):
                 rep.fail('SliceReader decode did not return: %s' % cls(plain[w][i]), case=b[i], executor=w, result=plain[w][i][:200])
     # reveal builds its own SliceReader: abort/panic capture in the debug profile
-    rv = []
-    for _ in range(ctx.scale(2000, 30000)):
-        n = rng.choice([16, 16, 32, 48, 64])
-        rv.append('REVEAL\tHidden(%d,%s)\t%s\t%s' % (rng.choice([7, 0, 8, 1, rng.randrange(0, 40)]), rbytes(rng, n).hex(),
-                                                  rbytes(rng, rng.randrange(0, 6)).hex(), rbytes(rng, 4).hex()))
-    r2 = run_compare(ctx, rep, rv, ['reveal_random'] * len(rv), lambda c, r: 'RETURNS' if returns(r) else cls(r))
+    rv, rvtags, _, _ = reveal_cases(ctx, ctx.scale(4000, 40000))
+    r2 = run_compare(ctx, rep, rv, ['reveal_' + t for t in rvtags], lambda c, r: 'RETURNS' if returns(r) else cls(r))
     for w in IMPLS:
         for c, r in zip(rv, r2[w]):
             if not returns(r):
@@ -1017,11 +1013,10 @@ def run_c12(ctx):
     return rep
 
 
-def run_c13(ctx):
-    rep = Report()
+def reveal_cases(ctx, n):
     rng = ctx.rng
     cases, tags, must_err, ann = [], [], [], []
-    for _ in range(ctx.scale(12000, 150000)):
+    for _ in range(n):
         t = rng.choice([7, 7, 8, 0, 1, 12, 34, 35, 39, 36, rng.randrange(0, 42), rng.getrandbits(16)])
         s = rng.choice([b'', b's', rbytes(rng, rng.randrange(1, 20))])
         rv = rbytes(rng, 4)
@@ -1055,6 +1050,13 @@ def run_c13(ctx):
             tag = 'well_formed'
         cases.append('REVEAL\tHidden(%d,%s)\t%s\t%s' % (t, val.hex(), s.hex(), rv.hex()))
         tags.append(tag); must_err.append(me); ann.append(t)
+    return cases, tags, must_err, ann
+
+
+def run_c13(ctx):
+    rep = Report()
+    rng = ctx.rng
+    cases, tags, must_err, ann = reveal_cases(ctx, ctx.scale(12000, 150000))
     res = run_compare(ctx, rep, cases, tags, lambda c, r: 'RETURNS' if returns(r) else cls(r))
     for w in IMPLS:
         for i, c in enumerate(cases):
@@ -1678,18 +1680,18 @@ def run_c20(ctx):
                 b = b[:2] + be(len(b), 2) + b[4:]
         else:
             if f == 'unknown_type':
-                x = rng.choice([20, 40, 41, 255, 65535, rng.randrange(40, 65536)]); r = avp_rec(x, rbytes(rng, rng.randrange(0, 9))); e = 'UnknownAvp(%d)' % x
+                x = rng.choice([20, 40, 41, 255, 65535, rng.randrange(40, 65536)]); r = avp_rec(x, rbytes(rng, rng.randrange(0, 9)), m=rng.choice([0, 1]), rsv=rng.choice([0, 0, 9])); e = 'UnknownAvp(%d)' % x
             elif f == 'unknown_mt_later':
                 x = rng.choice([0, 5, 13, 17, 65535, rng.randrange(17, 65536)]); r = avp_rec(0, be(x, 2)); e = 'UnknownMessageType(%d)' % x
             elif f == 'unknown_mt_first':
                 x = rng.choice([0, 5, 13, 17, 65535]); r = avp_rec(0, be(x, 2)); pos = 0; e = 'ControlMessageTypeNotFirst'
             elif f == 'vendor':
-                x = rng.choice([1, 311, 65535, rng.randrange(1, 65536)]); r = avp_rec(rng.randrange(1, 40), rbytes(rng, rng.randrange(0, 9)), vendor=x); e = 'UnsupportedVendorId(%d)' % x
+                x = rng.choice([1, 311, 65535, rng.randrange(1, 65536)]); r = avp_rec(rng.randrange(1, 40), rbytes(rng, rng.randrange(0, 9)), vendor=x, m=rng.choice([0, 1]), h=rng.choice([0, 0, 1])); e = 'UnsupportedVendorId(%d)' % x
             elif f == 'errtype':
                 x = rng.choice([9, 10, 255, 65535, rng.randrange(9, 65536)]); r = avp_rec(1, be(1, 2) + be(x, 2)); e = 'InvalidResultCodeErrorType(%d)' % x
             elif f == 'truncated':
                 t = rng.choice([x for x in TYPE_KIND if MIN_LEN[KINDS[TYPE_KIND[x]][1]] > 0 and x != 0])
-                r = avp_rec(t, rbytes(rng, rng.randrange(0, MIN_LEN[KINDS[TYPE_KIND[t]][1]]))); e = 'IncompleteAVP(%d)' % t
+                r = avp_rec(t, rbytes(rng, rng.randrange(0, MIN_LEN[KINDS[TYPE_KIND[t]][1]])), m=rng.choice([0, 1])); e = 'IncompleteAVP(%d)' % t
             else:
                 t = rng.choice([8, 21, 22, 23]); r = avp_rec(t, b'ok\xff' + rutf8(rng, 2)); e = 'InvalidUtf8(%d)' % t
             if f == 'unknown_mt_first':
